@@ -10,6 +10,8 @@ CONSTANTS
     Durs = {1, 2}
     ParIdx = {1, 2}
     MaxPts = 2
+    EpsPts = TRUE
+    ReadBefore = TRUE
     Lead = 1
 INIT PInit
 NEXT PNext
